@@ -82,7 +82,11 @@ func (g *Gen) chain(part Term) {
 // check can never be discharged from an assumption that depends on it.
 func (g *Gen) check(kind, label string, reach, goal Term, src string) {
 	part := fmt.Sprintf("(=> %s %s)", reach, goal)
-	g.rootGen().deferObl(kind, label, g.prefix(), part, src)
+	if !g.rootGen().umode {
+		// (the unconditional pass re-walks the body: its run-time checks are
+		// the obligations of the conditional pass, not generated twice)
+		g.rootGen().deferObl(kind, label, g.prefix(), part, src)
+	}
 	g.chain(part)
 }
 
@@ -299,8 +303,10 @@ func (g *Gen) binop(x *ssa.BinOp, st *State) Term {
 		if g.sfPrefix != "" {
 			ovfReach = fmt.Sprintf("(and %s %s)", g.sfPrefix, ovfReach)
 		}
-		g.rootGen().deferObl("safety", "ovf", ovfReach,
-			fmt.Sprintf("(and (<= %s %s) (<= %s %s))", intLit(lo), e, e, intLit(hi)), "")
+		if !g.rootGen().umode {
+			g.rootGen().deferObl("safety", "ovf", ovfReach,
+				fmt.Sprintf("(and (<= %s %s) (<= %s %s))", intLit(lo), e, e, intLit(hi)), "")
+		}
 		if x.Op != token.MUL {
 			return wrap1(e, bi)
 		}
@@ -795,9 +801,16 @@ func (g *Gen) ret(x *ssa.Return, st *State) {
 			env.vars["err"] = TV{g.val(v), g.u.SortOf(v.Type()), v.Type()}
 		}
 	}
-	for _, e := range g.con.Ensures {
-		goal := g.evalBool(env, e.Expr, e.Src)
-		g.deferObl("post", e.Label, r, goal, e.Src)
+	if g.umode {
+		for _, e := range g.con.Guarantees {
+			goal := g.evalBool(env, e.Expr, e.Src)
+			g.deferObl("gpost", e.Label, r, goal, e.Src)
+		}
+	} else {
+		for _, e := range g.con.Ensures {
+			goal := g.evalBool(env, e.Expr, e.Src)
+			g.deferObl("post", e.Label, r, goal, e.Src)
+		}
 	}
 	g.retReach = append(g.retReach, r)
 }
